@@ -41,12 +41,22 @@ class SimSourceOSError(SimSourceError, OSError):
     pass
 
 
+class SimSourceAbort(BaseException):
+    """A source interrupted by something that is not an Exception
+    (KeyboardInterrupt-like): `except Exception` handlers do not see it, only
+    `finally` blocks and finalisers run."""
+
+
+INJECTED_SOURCE_FAILURES = (SimSourceError, SimSourceAbort)
+
+
 # a failing source may raise any exception class; code under test that
 # catches e.g. TypeError for its own purposes must not swallow these
 SOURCE_ERRORS = {'plain': SimSourceError, 'type': SimSourceTypeError,
                  'value': SimSourceValueError, 'key': SimSourceKeyError,
                  'index': SimSourceIndexError,
-                 'attr': SimSourceAttributeError, 'os': SimSourceOSError}
+                 'attr': SimSourceAttributeError, 'os': SimSourceOSError,
+                 'abort': SimSourceAbort}
 SOURCE_ERROR_KINDS = sorted(SOURCE_ERRORS)
 
 
